@@ -24,7 +24,7 @@ class Ops(SeriesOps):
         "to_dict", "itertuples", "iterrows", "items", "head", "tail", "sample", "sum", "min", "max", "insert", "to_csv",
         "sort_index", "get", "pipe", "equals", "nunique", "count", "mean", "any", "all", "isna", "isnull", "notna", "info",
         "applymap", "map", "explode", "pivot_table", "to_json", "set_axis", "squeeze", "transpose", "add_prefix", "add_suffix",
-        "nlargest", "nsmallest", "cumsum", "abs", "shift", "agg", "aggregate", "update", "append", "to_records", "to_string", "clip", "where",
+        "nlargest", "nsmallest", "cumsum", "abs", "shift", "duplicated", "agg", "aggregate", "update", "append", "to_records", "to_string", "clip", "where",
     }
     GB_METHODS = {"agg", "aggregate", "sum", "max", "min", "mean", "count", "size", "first", "last", "describe", "groups", "cumsum",
                   "shift", "apply", "transform", "std", "median", "nunique", "head", "tail", "cummax", "idxmax", "idxmin", "ngroup", "cumcount"}
@@ -175,6 +175,10 @@ class Ops(SeriesOps):
         rowsel, colsel = key, None
         if isinstance(key, PyTuple) and len(key.items) == 2:
             rowsel, colsel = key.items
+        if isinstance(colsel, list) and colsel and all(isinstance(c, str) for c in colsel) and not isinstance(v, (Frame,)) and (len(colsel) == 1 or not isinstance(v, Ser)):
+            for c in colsel:
+                self.indexer_set(kind, f, PyTuple([rowsel, c]), v, node)
+            return
         if not isinstance(colsel, str):
             self.M.mutating(f, node, "loc-store", key=to_term(key))
             return
@@ -395,6 +399,12 @@ class Ops(SeriesOps):
         g.resolver = lambda name: ("dd", g.base, snap.col(name))
         self.log("drop_duplicates", node, src=f.obj, dst=g.obj, base=f.base, subset=to_term(subset))
         return self._inplace(f, g, kw, node, "drop_duplicates")
+
+    def f_duplicated(self, f, pos, kw, node):
+        subset = kw.get("subset", pos[0] if pos else None)
+        sl = subset if isinstance(subset, list) else ([subset] if isinstance(subset, str) else (f.colnames() or []))
+        t = ("duplicated", kw.get("keep", "first"), tuple(f.col(c) for c in sl) if sl else ("allcols",), f.ctx())
+        return Ser(t, f.ctx(), f)
 
     def f_head(self, f, pos, kw, node):
         self.log("row-subset", node, what="head", base=f.base)
